@@ -100,6 +100,46 @@ def setup(v, option):
     return dict(b1=b1, b2=b2, size1=size1, size2=size2, T=T, S=S, B=B, END=END, wall=wall, ids=ids, bufpp=bufpp, sizepp=sizepp)
 
 
+def varconfig_invariant(v):
+    """element loop of the var_config branch of reb_binary_diff: one iteration raises fields_differ iff some NON-POINTER
+    member of element i differs between the two buffers (the pointer to the simulation is skipped).  Shared by C06
+    (a changed variational configuration must be emitted) and C17 (compare reports exactly the real differences)."""
+    bitor = v.eng.uf("bitor", z3.IntSort(), z3.IntSort(), z3.IntSort())
+    xx = z3.Int("x!flag")
+    v.assume(z3.ForAll([xx], z3.Implies(z3.Or(xx == 0, xx == 1), bitor(xx, 1) == 1)))       # 0|1 = 1|1 = 1
+    tu0 = v.eng.tu0
+    vc_size = tu0.sizeof(tu0.ctype("struct reb_variational_configuration"))
+    vc_members = [(n_, tu0.ctype(q), tu0.offsetof("reb_variational_configuration", n_))
+                  for (n_, q, _i) in tu0.records["reb_variational_configuration"]]
+
+    def inv(L):
+        out = [("i_nonneg", L.i >= 0), ("flag_boolean", z3.Or(L.fields_differ == 0, L.fields_differ == 1))]
+        i0, f0 = L.at_head("i"), L.at_head("fields_differ")
+        if i0 is not None:
+            p1, p2 = L.pos1, L.pos2
+            diffs = []
+            for (n_, t_, off_) in vc_members:
+                if t_.kind == "ptr":
+                    continue
+                c1 = v.eng.content("buf1", ("reb_variational_configuration", n_), t_, z3.simplify(p1 + i0 * vc_size + off_))
+                c2 = v.eng.content("buf2", ("reb_variational_configuration", n_), t_, z3.simplify(p2 + i0 * vc_size + off_))
+                diffs.append(c1 != c2)
+            some = z3.Or(*diffs)
+            out.append(("element_differs_raises_flag", z3.Implies(some, L.fields_differ == 1)))
+            out.append(("equal_element_keeps_flag", z3.Implies(z3.Not(some), L.fields_differ == f0)))
+        return out
+    return inv
+
+
+def local_names(L):
+    names = set()
+    for did, oid in L.st.frames[-1].items():
+        o = L.st.mem.objs.get(oid)
+        if o is not None and getattr(o, "name", None):
+            names.add(o.name)
+    return names
+
+
 def stream_wf(chunks):
     """appended chunks of one iteration: [] | [hdr(size 0)] | [hdr(t,s), payload(len s)]"""
     conds = []
@@ -142,6 +182,19 @@ def diff_task(option):
                     out.append(("payload_from_current.%d" % i, z3.BoolVal(ch[1] == "buf2")))
             if option == 2:
                 out.append(("nothing_written", z3.BoolVal(not new)))
+            h1, h2 = L.at_head("pos1"), L.at_head("pos2")
+            if option == 0 and h1 is not None and "fields_differ" in local_names(L):
+                # completeness of the delta (first pass, field present in both serialisations): the field is emitted iff the
+                # comparison found a difference; for byte-compared fields that is: sizes differ or memcmp != 0
+                out.append(("emitted_iff_field_differs", z3.BoolVal(bool(new)) == (L.fields_differ != 0)))
+                mc = v.eng.uf("memcmp_buf1_buf2", z3.IntSort(), z3.IntSort(), z3.IntSort(), z3.IntSort())
+                f1, f2 = L.field1, L.field2
+                t1, s1, s2 = f1.fields["type"], f1.fields["size"], f2.fields["size"]
+                plain = z3.And(t1 != E["ids"]["particles"], t1 != E["ids"]["var_config"])
+                p1now, p2now = L.pos1, L.pos2        # advanced by the sizes at the end of the iteration
+                out.append(("plain_field_differs_iff_bytes_differ",
+                            z3.Implies(plain, (L.fields_differ != 0) == z3.Or(s1 != s2, mc(p1now - s1, p2now - s2, s1) != 0))))
+                out.append(("size_change_is_a_difference", z3.Implies(s1 != s2, L.fields_differ != 0)))
             return out
 
         def search2_inv(L):      # inner loop of the first pass: scans buf2 from 64
@@ -162,7 +215,9 @@ def diff_task(option):
         v.ground("two_search_loops", len(inner) == 2, str(inner))
         v.loop(fn, inner[0], invariant=search2_inv)
         v.loop(fn, inner[1], invariant=search1_inv)
-        v.loop_where(fn, lambda i: i["kind"] == "ForStmt", invariant=triv)
+        v.loop_where(fn, lambda i: i["kind"] == "ForStmt" and "vb1" not in i["names"], invariant=triv)
+        vcl = v.loop_where(fn, lambda i: i["kind"] == "ForStmt" and "vb1" in i["names"], invariant=varconfig_invariant(v))
+        v.ground("var_config_branch_present", len(vcl) == 1, str(vcl))
         ret = v.call(fn, E["b1"], size1, E["b2"], size2, E["bufpp"], E["sizepp"], z3.IntVal(option))
         v.prove("returns_boolean", z3.Or(ret == 0, ret == 1))
     return _
